@@ -7,6 +7,7 @@ From Qryn Require Import model.LogqlMetricPost proofs.LogqlMetricPostProofs.
 From Qryn Require Import model.SqlEval model.LogqlSem model.LogqlMetricE2E proofs.LogqlMetricE2EProofs.
 From Qryn Require Import model.LogqlMetricFloat proofs.LogqlMetricFloatProofs.
 From Qryn Require Import model.SqlEvalAgg model.LogqlMetricExec proofs.LogqlMetricExecProofs.
+From Qryn Require Import proofs.LogqlMetricSlotsProofs.
 Import ListNotations.
 Open Scope Z_scope.
 
@@ -71,6 +72,15 @@ Theorem shortcut_only_whole_slots : forall s, analyze_m15 s = true ->
   match first_lra s with Some l => exists k, 0 < k /\ lra_dur_ns l = 15000000000 * k | None => False end.
 Proof. exact analyze_m15_whole_slots. Qed.
 Print Assumptions shortcut_only_whole_slots.
+
+(* ... and EXACTLY such ranges can be answered from the roll-up table: the slot of every line falls into the window of the line iff
+   the range is a whole number of 15-second slots (for every other range d the line at ts = d, first instant of the second window,
+   sits in a slot that starts in the first window). A test of the range in whole seconds - seed C08-e - lets 15.5 s through
+   (Example whole_seconds_test_is_not_enough in proofs/LogqlMetricSlotsProofs.v). *)
+Theorem shortcut_exact_iff_whole_slots : forall d, 0 < d ->
+  (forall ts, 0 <= ts -> bucket_sql_z d (floor15 ts) = bucket_sql_z d ts) <-> d mod 15000000000 = 0.
+Proof. exact shortcut_bucket_iff_whole_slots. Qed.
+Print Assumptions shortcut_exact_iff_whole_slots.
 
 (* the 15-second shortcut is taken only for queries whose every stage can be answered from the roll-up table *)
 Theorem every_stage_takes_effect : forall s, analyze_m15 s = true -> m15_representable s = true.
